@@ -16,6 +16,8 @@ VCoords(r) ==
           ELSE IF \E k \in DOMAIN r.out.coordinfo : SeqToSet(r.out.coordinfo[k][2]) \cap abandoned # {} THEN "stale-coordinate-of-abandoned-dimension"
           ELSE IF \E d \in SeqToSet(e.dims) \ SeqToSet(r.args.data.dims) :
                     (d \in want) /\ ~(d \in names) THEN "new-dimension-coordinate-missing"
+          ELSE IF \E d \in SeqToSet(e.dims) \ SeqToSet(r.args.data.dims) :
+                    d \in names /\ d \notin {r.dscoords[k].name : k \in DOMAIN r.dscoords} THEN "new-dimension-coordinate-not-from-the-grid-dataset"
           ELSE IF \E c \in want : c \notin names THEN "coordinate-missing"
           ELSE IF \E c \in names : c \notin want /\ c \in {r.dscoords[k].name : k \in DOMAIN r.dscoords} THEN "coordinate-not-expected"
           ELSE IF \E k \in DOMAIN r.out.coordinfo : r.out.coordinfo[k][1] \in want /\ ~r.out.coordinfo[k][3] THEN "coordinate-values"
